@@ -8,7 +8,7 @@
    Oracles are function arguments, never axioms:
      cr    : the subgrader's `check(answer, item)` (a result or an exception) -- item credits are arbitrary;
      solve : the assignment solver called by find_optimal_order on the cost matrix `1 - grade`.
-   The executable instance of `solve` is Model.Munkres.compute at Q (bottom of this file).
+   The executable instance of `solve` is Model.Munkres.computeZ on the integer-scaled costs (bottom of this file).
    No proofs here. *)
 From Coq Require Import ZArith QArith List Bool Arith.
 From Verif.Lib Require Import QRound.
@@ -292,8 +292,15 @@ Definition infer_nested (co ci : cfg) (s : str) : res (list (answer (inner_answe
   else inl [mkAnswer [map (fun items => [mkAnswer [items] 1 []]) parts] 1 []].
 
 (* ------------------------------------------------------------------------------------------------
-   executable solver: Model.Munkres.compute at Q (costs 1 - grade, sys.maxsize as in munkres.py)
+   executable solver: the INTEGER instance of Model.Munkres (computeZ) on the cost matrix scaled by a common
+   denominator D of its entries:  cost_ij = D * (1 - grade_ij)  as an integer.  In exact arithmetic the
+   implementation's float matrix `1 - grade` is this matrix divided by D, and every decision of the solver
+   (comparisons, tests against zero) is invariant under scaling by D > 0 as long as D stays below sys.maxsize;
+   the correspondence validates that on the implementation's own runs.
    ------------------------------------------------------------------------------------------------ *)
-Definition qmaxsize : Q := 9223372036854775807.
-Definition computeQ : list (list Q) -> option (list (nat * nat)) :=
-  compute Q 0 (fun a b => Qred (a + b)) (fun a b => Qred (a - b)) Qltb Qeq_bool qmaxsize.
+Definition common_den (m : list (list Q)) : Z :=
+  fold_right (fun row acc => fold_right (fun q a => Z.lcm (Zpos (Qden q)) a) acc row) 1%Z m.
+Definition scale_q (D : Z) (q : Q) : Z := (Qnum q * (D / Zpos (Qden q)))%Z.
+Definition scale_matrix (m : list (list Q)) : list (list Z) :=
+  let D := common_den m in map (map (scale_q D)) m.
+Definition solveZ (m : list (list Q)) : option (list (nat * nat)) := computeZ (scale_matrix m).
